@@ -165,6 +165,19 @@ def wrap(kinds, lines):
     raise ValueError(k)
 
 
+PRE = {
+    "none": [],
+    "closure": ["let cl0 = (z) => z + 1", "println(cl0(1))"],
+    "listcomp": ["let lc0 = [z * 2 for z in [1, 2] if z > 0]", "println(len(lc0))"],
+    "dictcomp": ["let dc0 = {z: z for z in [1, 2]}", "println(len(dc0))"],
+    "match-stmt": ["match n:", "    0 => println(0)", "    _ => println(1)"],
+    "for-loop": ["for z0 in range(2):", "    println(z0)"],
+    "try-ok": ["let ok0 = fetch()?", "println(ok0)"],
+    "nested-call": ["println(plain() + plain())"],
+    "if-else": ["if n > 7:", "    println(7)", "else:", "    println(8)"],
+}
+
+
 def table_program(row, variant):
     rule, host, kinds = row["rule"], row["host"], row["kinds"]
     if rule in DECL:
@@ -172,7 +185,7 @@ def table_program(row, variant):
         text = PRELUDE + DECL[rule][0 if variant == "bad" else 1].format(kw=kw) + "\ndef main() -> None:\n    println(1)\n"
     else:
         decl, bad, good = STMT[rule]
-        body = list(decl) + wrap(kinds, bad if variant == "bad" else good) + ["return Ok(0)"]
+        body = list(decl) + wrap(kinds, PRE[row.get("pre", "none")] + (bad if variant == "bad" else good)) + ["return Ok(0)"]
         params = "n: int, c: Color, o: Option[int], r: Result[int, str]"
         if host == "fn":
             fn = [f"def host({params}) -> Result[int, str]:"] + ["    " + l for l in body]
@@ -246,12 +259,12 @@ def run(ctx):
         reqs += [{"op": "check", "src": src}, {"op": "check", "src": gsrc}]
         meta.append((r["rule"], tags, src, span, gsrc, {"rule": r["rule"], "kinds": r["kinds"]}))
     for r in trows:
-        tags = ["rule:" + r["rule"], "host:" + r["host"], "distance:" + str(len(r["kinds"]))] + ["ctx:" + k for k in r["kinds"]] + \
+        tags = ["rule:" + r["rule"], "host:" + r["host"], "pre:" + r.get("pre", "none"), "distance:" + str(len(r["kinds"]))] + ["ctx:" + k for k in r["kinds"]] + \
                (["ctx-innermost:" + r["kinds"][-1]] if r["kinds"] else ["ctx-innermost:top"])
         src, span = table_program(r, "bad")
         gsrc, _ = table_program(r, "good")
         reqs += [{"op": "check", "src": src}, {"op": "check", "src": gsrc}]
-        meta.append((r["rule"], tags, src, span, gsrc, {"rule": r["rule"], "host": r["host"], "kinds": r["kinds"]}))
+        meta.append((r["rule"], tags, src, span, gsrc, {"rule": r["rule"], "host": r["host"], "kinds": r["kinds"], "pre": r.get("pre", "none")}))
     with ctx.timed("replay"):
         outs = common.replay_batch(reqs, timeout=3000)
     n = 0
@@ -266,14 +279,14 @@ def run(ctx):
         if not ob_good.get("ok"):
             # the well-typed twin is rejected: the context itself is not accepted by the checker -> the case
             # says nothing about the rule; counted (a generator/context limitation, not a violation)
-            key = (rule, info.get("host"), tuple(info["kinds"]))
+            key = (rule, info.get("host"), tuple(info["kinds"]), info.get("pre"))
             twin_rejected[key] = [d.get("msg") for d in ob_good.get("errs", [])][:2]
             continue
         judge(ctx, rule, tags, src, span, ob_bad, info)
-        distinct.add((rule, info.get("host"), tuple(info["kinds"])))
+        distinct.add((rule, info.get("host"), tuple(info["kinds"]), info.get("pre")))
     # a rule whose twin is rejected in EVERY context would make the check vacuous for it
     by_rule = {}
-    for (rule, host, kinds) in distinct:
+    for (rule, host, kinds, _pre) in distinct:
         by_rule[rule] = by_rule.get(rule, 0) + 1
     for rule in set(m[0] for m in meta):
         if by_rule.get(rule, 0) == 0:
